@@ -215,13 +215,43 @@ def r5(idx, rep):
     for inst, want in (("2026-01-02_03-04-05", "ARCH/p/2026-01-02_03-04-05/one/data.csv"), ("2026-01-02_:last", "ARCH/p/2026-01-02_09-00-00/one/data.csv"),
                        ("2026-01-:first", "ARCH/p/2026-01-02_03-04-05/one/data.csv")):
         h = fs.handlers()
-        h["ReferenceParser"] = lambda i, c, r, a, k, inst=inst: Obj("ref")
+        h["ReferenceParser"] = K.reference_parser_handler(idx)
         h["datetime.datetime.strptime"] = lambda i, c, r, a, k: __import__("datetime").datetime.strptime(a[0], a[1])
         it = Interp(idx, types={"self": "ResultsManager"}, unknown_calls="residual", handlers=h,
                     inline={"ResultsManager._find_instance", "ResultsManager._find_last", "ResultsManager._find_first", "ResultsManager._find", "ResultsManager._find_in_dir_names"})
-        st = {"ref.datatype": "results", "ReferenceParser.RESULTS": "results", "ref.root_major": "p", "ref.name_one": inst, "ref.name_three": "one",
-              "self._csvpaths.config.archive_path": "ARCH"}
+        st = {"self._csvpaths.config.archive_path": "ARCH"}
         ps = it.run_all(fi, args={"refstr": f"$p.results.{inst}.one"}, store=st)
         if len(ps) != 1 or ps[0].result != ("return", want):
             bad = bad or f"$p.results.{inst}.one resolves to {[p.result for p in ps]}; documented {want!r}"
     rep.check(bad is None, "R5", f"{fi.file}::ResultsManager.data_file_for_reference model archive", bad or "", K.where(fi, fi.node))
+    # the reference parser itself: parts of the documented reference forms (member identities may contain dots)
+    fp = idx.method("ReferenceParser", "parse")
+    rep.analysed(fp, idx.method("ReferenceParser", "_names_from_name"), idx.method("ReferenceParser", "_set_names"), idx.method("ReferenceParser", "_set_root"))
+    table = [
+        ("$chain.results.2026-01-02_03-04-05.two", dict(root_major="chain", root_minor=None, datatype="results", name_one="2026-01-02_03-04-05", name_three="two")),
+        ("$chain.results.2026-01-02_:last.two.v2", dict(root_major="chain", datatype="results", name_one="2026-01-02_:last", name_three="two.v2")),
+        ("$p.variables.v.k", dict(root_major="p", datatype="variables", name_one="v", name_three="k")),
+        ("$p.variables.v", dict(root_major="p", datatype="variables", name_one="v", name_three=None)),
+        ("$p.csvpaths.two:from", dict(root_major="p", datatype="csvpaths", name_one="two:from")),
+        ("$p#one.headers.h", dict(root_major="p", root_minor="one", datatype="headers", name_one="h")),
+        ("$.headers.h", dict(root_major="local", datatype="headers", name_one="h")),
+    ]
+    bad = None
+    for s_, want in table:
+        it = Interp(idx, types={}, unknown_calls="residual", handlers={"ReferenceParser": K.reference_parser_handler(idx)})
+
+        def program(it, s_=s_):
+            o = it.handlers["ReferenceParser"](it, None, None, [s_], {})
+            out = {}
+            for k in ("root_major", "root_minor", "datatype"):
+                out[k] = it.store.get(f"{o.name}.{k}")
+            names = it.store.get(f"{o.name}._names") or [None] * 4
+            out["name_one"], out["name_two"], out["name_three"], out["name_four"] = (list(names) + [None] * 4)[:4]
+            return out
+
+        ps = it.run_program(program, {})
+        got = ps[0].result[1] if len(ps) == 1 and ps[0].result[0] == "return" else {"error": ps[0].result}
+        diff = {k: (got.get(k), v) for k, v in want.items() if got.get(k) != v}
+        if diff:
+            bad = bad or f"reference {s_!r}: parsed {diff} (got, documented)"
+    rep.check(bad is None, "R5", f"{fp.file}::ReferenceParser table", bad or f"{len(table)} references", K.where(fp, fp.node))
